@@ -57,6 +57,11 @@ BIN = {
 }
 
 
+def as_scalar(ty, tm):
+  """a Python int (type N: a nat-valued variable such as the iteration counter) used in float arithmetic"""
+  return ('S', "(ofnat %s)" % tm) if ty == 'N' else (ty, tm)
+
+
 def cexpr(n, env):
   """-> (type, term)"""
   c = num_const(n)
@@ -81,9 +86,20 @@ def cexpr(n, env):
     ty, tm = cexpr(n.value, env)
     if not isinstance(n.slice, (ast.Tuple, ast.Slice)):
       sty, stm = cexpr(n.slice, env)
-      if sty == 'VB' and ty in ('V', 'M'):
+      if sty == 'VB' and ty in ('V', 'M', 'VI'):
         return (ty, "(nn_mask %s %s)" % (stm, tm))
+    if isinstance(n.slice, ast.Tuple) and len(n.slice.elts) == 2 and ty == 'M':
+      s1 = n.slice.elts[1]
+      if isinstance(s1, ast.Slice) and s1.lower is None and s1.upper is None and s1.step is None:
+        ity, itm = cexpr(n.slice.elts[0], env)
+        if ity == 'VI':
+          return ('M', "(nn_take_rows %s %s)" % (itm, tm))
     raise Untranslatable(n, "subscript is not a declared cell of the loop state")
+  if isinstance(n, ast.Attribute) and n.attr == 'T':
+    ty, tm = cexpr(n.value, env)
+    if ty == 'V':
+      return ('V', tm)          # a (1, n) row and its (n, 1) transpose hold the same numbers in the same order
+    raise Untranslatable(n, ".T on type " + ty)
   if isinstance(n, ast.IfExp):
     # 1. if gamma is np.inf else gamma / (gamma + 1.)   (`==` as well: the value, not the object)
     t = n.test
@@ -99,7 +115,7 @@ def cexpr(n, env):
         return ('S', "(match %s with None => %s | Some gm_ => %s end)" % (env.vars[x][1], btm, otm))
     raise Untranslatable(n, "conditional expression not in the idiom table")
   if isinstance(n, ast.UnaryOp) and isinstance(n.op, ast.USub):
-    ty, tm = cexpr(n.operand, env)
+    ty, tm = as_scalar(*cexpr(n.operand, env))
     if ty == 'S':
       return ('S', "(oopp O %s)" % tm)
     if ty == 'V':
@@ -115,6 +131,15 @@ def cexpr(n, env):
       raise Untranslatable(n, "**2 on type " + ty)
     lt, l = cexpr(n.left, env)
     rt, r = cexpr(n.right, env)
+    # integers: iter + 1, (iter + 1) % output_iter stay integers; an integer meeting a float is converted
+    if lt == 'N' and const_int(n.right) is not None and const_int(n.right) >= 0 and isinstance(n.op, ast.Add):
+      return ('N', "(%s + %d)%%nat" % (l, const_int(n.right)))
+    if lt == 'N' and rt == 'N' and isinstance(n.op, ast.Mod):
+      return ('N', "(Nat.modulo %s %s)" % (l, r))
+    if lt == 'N' and rt != 'N':
+      lt, l = as_scalar(lt, l)
+    if rt == 'N' and lt != 'N':
+      rt, r = as_scalar(rt, r)
     key = (type(n.op), lt, rt)
     if key in BIN:
       ty, fmt = BIN[key]
@@ -122,6 +147,8 @@ def cexpr(n, env):
     raise Untranslatable(n, "operator %s on types %s, %s" % (type(n.op).__name__, lt, rt))
   if isinstance(n, ast.Compare) and len(n.ops) == 1:
     lt, l = cexpr(n.left, env)
+    if lt == 'N' and isinstance(n.ops[0], ast.Eq) and const_int(n.comparators[0]) is not None and const_int(n.comparators[0]) >= 0:
+      return ('B', "(Nat.eqb %s %d)" % (l, const_int(n.comparators[0])))
     rt, r = cexpr(n.comparators[0], env)
     op = type(n.ops[0])
     if lt == rt == 'S':
@@ -149,6 +176,21 @@ def cexpr(n, env):
       return cdot(n, f.value, n.args[0], env)
     if np_call(n, 'dot') and len(n.args) == 2 and not n.keywords:
       return cdot(n, n.args[0], n.args[1], env)
+    if np_call(n, 'matmul') and len(n.args) == 2 and not n.keywords:
+      return cdot(n, n.args[0], n.args[1], env)
+    if np_call(n, 'squeeze') and len(n.args) == 1 and len(n.keywords) == 1 and n.keywords[0].arg == 'axis' \
+        and const_int(n.keywords[0].value) == 1:
+      ty, tm = cexpr(n.args[0], env)
+      if ty in ('V', 'VB'):
+        return (ty, tm)         # dropping the unit axis of an (n, 1) column
+      raise Untranslatable(n, "np.squeeze on type " + ty)
+    if np_call(n, 'sum') and len(n.args) == 1 and sorted(k.arg for k in n.keywords) == ['axis', 'keepdims']:
+      kws = {k.arg: k.value for k in n.keywords}
+      ty, tm = cexpr(n.args[0], env)
+      if ty == 'M' and const_int(kws['axis']) == 0 and isinstance(kws['keepdims'], ast.Constant) and kws['keepdims'].value is True \
+          and env.vars.get('__ncols__', (None,))[0] == 'N':
+        return ('V', "(nn_sum_cols %s %s)" % (env.vars['__ncols__'][1], tm))      # column sums as a (1, n) row
+      raise Untranslatable(n, "np.sum(axis=0, keepdims=True) form")
     if np_call(n, 'outer') and len(n.args) == 2 and not n.keywords:
       (at, a), (bt, b) = cexpr(n.args[0], env), cexpr(n.args[1], env)
       if at == bt == 'V':
